@@ -14,6 +14,14 @@ source text (annotations stripped) wherever the program is plain python.  A row 
 when the code's return bits differ from Sem although no intermediate left the range of its type, or differ on the low bits that wrap-around arithmetic
 determines.  Programs of the malformed stream must raise.
 
+The largest shipped widths (`harness/c01wide.py`, tags `wide:*`, `rand:wide`, `arith-wide:*`): programs over
+Qint[12] / Qint[16] variables, narrower variables with literals from 256, mixed widths 2..16, every operator, products
+whose padded operands exceed the largest result type.  They have up to 48 argument bits, so `qf.expressions` is
+evaluated (as a graph: shared sub-expressions once) on SAMPLED rows at the boundaries of the width table, judged by
+the same oracle on the same rows; the Lean translator model, SemW / Sem and the source-level semantics are evaluated
+on those rows too (`rows` field of the driver requests).  The model of `QintImp.mul` on wide operands is evaluated
+row by row (`QV.Arith.qMulLit`, tied to `qMul` by the theorem `mul_rowwise_eval`).
+
 Correspondence: the syntax tree the real `ast2ast` hands to `translate_ast` goes to the Lean model
 (QV.Model.Front / Arith) with the logged `is_const` outcomes of `mul`; compared: acceptance, bit-name
 layout, truth table of every return bit.  The library functions of `QintImp` are also compared one by
@@ -28,7 +36,7 @@ from __future__ import annotations
 import ast
 import json
 
-from . import a2a, bexp, progs, pysem
+from . import a2a, bexp, c01wide, progs, pysem
 from .common import Ctx, Result
 
 LEVEL = "proof"
@@ -75,7 +83,10 @@ class Lib:
         from qlasskit.ast2ast import ast2ast as real_ast2ast
 
         self.ast2ast = real_ast2ast
-        self.profiles = {"fast": boolopt.fastOptimizer, "default": boolopt.defaultOptimizer}
+        # "none": the definition list as `translate_ast` leaves it (the identity profile of the public
+        # `bool_optimizer=` parameter); used for the wide programs, where fastOptimizer's tree walks are the cost
+        self.profiles = {"fast": boolopt.fastOptimizer, "default": boolopt.defaultOptimizer,
+                         "none": boolopt.BoolOptimizerProfile([])}
         self.tree = None
         self.consts = []
         self._orig_translate = QF.translate_ast
@@ -116,8 +127,9 @@ class Lib:
             return ["tuple"] + [self.ty_of(a) for a in args]
         return ["?", repr(t)]
 
-    def compile(self, src, profile):
-        """-> dict(ok, error | args, ret, defs(json), tree, consts)"""
+    def compile(self, src, profile, dag=False):
+        """-> dict(ok, error | args, ret, defs(json), tree, consts); with `dag` the definition list is kept as
+        a linearised graph (`bexp.dag_of_defs`: shared sub-expressions once) instead of JSON trees"""
         self.tree, self.consts = None, []
         try:
             qf = self.q.qlassf(src, to_compile=False, bool_optimizer=self.profiles[profile])
@@ -126,6 +138,12 @@ class Lib:
         if not hasattr(qf, "expressions") or not isinstance(getattr(qf, "args", None), list):
             return dict(ok=False, error="unbound qlassf", tree=self.tree, consts=list(self.consts))
         try:
+            if dag:
+                argbits = [b for a in qf.args for b in a.bitvec]
+                g = bexp.dag_of_defs(qf.expressions, argbits)
+                return dict(ok=True, defs=None, dag=g, tree=self.tree, consts=list(self.consts), argbits=argbits,
+                            retbits=list(qf.returns.bitvec),
+                            args=[[a.name, self.ty_of(a.ttype)] for a in qf.args], ret=self.ty_of(qf.returns.ttype))
             defs = [[s.name, bexp.to_json(e)] for s, e in qf.expressions]
         except ValueError as e:
             return dict(ok=True, bad_expr=str(e), tree=self.tree, consts=list(self.consts), defs=[],
@@ -133,6 +151,13 @@ class Lib:
         return dict(ok=True, defs=defs, tree=self.tree, consts=list(self.consts),
                     argbits=[b for a in qf.args for b in a.bitvec], retbits=list(qf.returns.bitvec),
                     args=[[a.name, self.ty_of(a.ttype)] for a in qf.args], ret=self.ty_of(qf.returns.ttype))
+
+
+def code_rows(o, ks):
+    """sampled rows of a program compiled with `dag=True`: (rows, free symbols, return bits never defined)"""
+    g = o["dag"]
+    missing = [r for r in o["retbits"] if r not in set(g["defined"])]
+    return bexp.dag_rows(g, o["argbits"], o["retbits"], ks), list(g["free"]), missing
 
 
 def code_table(defs, argbits, retbits):
@@ -231,8 +256,9 @@ def has_unsupported(j):
     return False
 
 
-def model_request(prog, tree, consts, quirks, table=True):
-    """None when the program is outside the model's types / syntax"""
+def model_request(prog, tree, consts, quirks, table=True, rows=None):
+    """None when the program is outside the model's types / syntax; `rows`: the sampled row numbers of a wide
+    program (the table is then computed on these rows only)"""
     args = [[n, pysem.ty_json(t)] for n, t in prog.args]
     ret = pysem.ty_json(prog.ret)
     if ret is None or any(t is None for _, t in args):
@@ -240,7 +266,10 @@ def model_request(prog, tree, consts, quirks, table=True):
     body = [stmt_json(s) for s in tree.body]
     if has_unsupported(body):
         return None
-    return dict(op="c01.translate", args=args, ret=ret, body=body, consts=consts, quirks=sorted(quirks), table=table)
+    r = dict(op="c01.translate", args=args, ret=ret, body=body, consts=consts, quirks=sorted(quirks), table=table)
+    if rows is not None:
+        r["rows"] = rows
+    return r
 
 
 # ----------------------------------------------------------------------------- program streams
@@ -804,22 +833,30 @@ class Case:
         self.exact = None       # per row (exact python value, k) of the oracle for bool / Qint returns, else None
         self.cpython_rows = 0   # rows on which the oracle's exact value was cross-checked against CPython itself
         self.a2a_real = None    # the real ast2ast on a fresh parse of the source: serialised tree or exception
+        self.ks = None          # wide programs: the sampled row numbers (None = every row 0 .. 2^n - 1)
+        self.heavy = False      # wide products: the Lean model's expressions cannot be walked as trees
+        self.row_kinds = {}
+
+    def rown(self, i):
+        """row number of position i of self.rows / self.expected"""
+        return i if self.ks is None else self.ks[i]
 
 
-def observe(lib, tag, src, profiles=("fast", "default"), budget=15):
+def observe(lib, tag, src, profiles=("fast", "default"), budget=15, ks=None, heavy=False):
     import signal
 
     old = signal.signal(signal.SIGALRM, _alarm)
     # the timer repeats: a bare `except:` inside the library or sympy may swallow one alarm
     signal.setitimer(signal.ITIMER_REAL, budget, 0.5)
     try:
-        c = _observe(lib, tag, src, profiles)
+        c = _observe(lib, tag, src, profiles, ks, heavy)
         signal.setitimer(signal.ITIMER_REAL, 0)
         return c
     except _Timeout:
         signal.setitimer(signal.ITIMER_REAL, 0)
         c = Case(tag, src)
         c.timeout = True
+        c.ks, c.heavy = ks, heavy
         c.main = profiles[0]
         c.code = {p: dict(ok=False, error="timeout", tree=None, consts=[]) for p in profiles}
         return c
@@ -828,8 +865,10 @@ def observe(lib, tag, src, profiles=("fast", "default"), budget=15):
         signal.signal(signal.SIGALRM, old)
 
 
-def _observe(lib, tag, src, profiles=("fast", "default")):
+def _observe(lib, tag, src, profiles=("fast", "default"), ks=None, heavy=False):
     c = Case(tag, src)
+    c.ks, c.heavy = ks, heavy
+    wide = ks is not None
     try:
         c.prog = pysem.Program(src)
     except pysem.Reject as e:
@@ -840,7 +879,7 @@ def _observe(lib, tag, src, profiles=("fast", "default")):
         c.oracle = f"malformed:syntax {e}"
     c.a2a_real = a2a.real_result(lib.ast2ast, src)
     for p in profiles:
-        c.code[p] = lib.compile(src, p)
+        c.code[p] = lib.compile(src, p, dag=wide)
     oks = {p: c.code[p]["ok"] for p in profiles}
     c.main = next((p for p in profiles if oks[p]), profiles[0])
     first = c.code[c.main]
@@ -851,7 +890,16 @@ def _observe(lib, tag, src, profiles=("fast", "default")):
     if first.get("bad_expr"):
         c.violations.append(("an expression is not a boolean formula", first["bad_expr"]))
         return c
-    rows, free, missing = code_table(first["defs"], first["argbits"], first["retbits"])
+    if wide and c.prog is not None and first["argbits"] != c.prog.argbits:
+        # the row numbers were chosen for the declared argument layout
+        c.violations.append(("bit-name layout of arguments / return value differs from the declared types",
+                             dict(code_args=first["argbits"], code_ret=first["retbits"],
+                                  expected_args=c.prog.argbits, expected_ret=c.prog.retbits)))
+        return c
+    if wide:
+        rows, free, missing = code_rows(first, ks)
+    else:
+        rows, free, missing = code_table(first["defs"], first["argbits"], first["retbits"])
     c.rows, c.free, c.missing = rows, free, missing
     for p in profiles:
         o = c.code[p]
@@ -860,11 +908,17 @@ def _observe(lib, tag, src, profiles=("fast", "default")):
         if o.get("bad_expr"):
             c.violations.append((f"profile {p}: an expression is not a boolean formula", o["bad_expr"]))
             continue
-        r2, f2, m2 = code_table(o["defs"], o["argbits"], o["retbits"])
+        if wide and o["argbits"] != first["argbits"]:
+            r2, f2, m2 = None, [], []
+        elif wide:
+            r2, f2, m2 = code_rows(o, ks)
+        else:
+            r2, f2, m2 = code_table(o["defs"], o["argbits"], o["retbits"])
         if r2 != rows or o["argbits"] != first["argbits"] or o["retbits"] != first["retbits"] or f2 or m2:
-            bad = next((i for i, (x, y) in enumerate(zip(rows, r2)) if x != y), None)
+            bad = next((i for i, (x, y) in enumerate(zip(rows, r2 or [])) if x != y), None)
             c.violations.append((f"profile {p} gives a different function than profile {c.main}",
-                                 dict(row=bad, free=f2, missing=m2)))
+                                 dict(row=None if bad is None else c.rown(bad), free=f2, missing=m2,
+                                      code=None if bad is None else [rows[bad], r2[bad]])))
     if c.prog is None:
         return c
     if first["argbits"] != c.prog.argbits or first["retbits"] != c.prog.retbits:
@@ -882,7 +936,7 @@ def judge(c, quirks=()):
     n = len(prog.argbits)
     c.failing, c.expected = [], []
     c.exact = []
-    for k in range(2 ** n):
+    for pos, k in enumerate(c.ks if c.ks is not None else range(2 ** n)):
         row = [bool((k >> i) & 1) for i in range(n)]
         try:
             v, ev = prog.run(row, quirks)
@@ -912,7 +966,7 @@ def judge(c, quirks=()):
                                        f"pysem {mine} CPython {py}")
         c.expected.append(exp)
         c.exact.append((int(v.ex), v.k) if v.items is None and v.ty[0] in ("bool", "qint") else None)
-        got = c.rows[k]
+        got = c.rows[pos]
         if len(got) != len(exp):
             c.violations.append(("number of return bits", dict(code=len(got), expected=len(exp))))
             return
@@ -935,6 +989,9 @@ def table_rows(table, nret):
 
 def case_json(c, **kw):
     d = dict(tag=c.tag, src=c.src)
+    if c.ks is not None:
+        # a wide program is judged on sampled rows: the replay evaluates the same ones
+        d["ks"], d["heavy"], d["profiles"] = c.ks, c.heavy, sorted(c.code)
     d.update(kw)
     return d
 
@@ -948,7 +1005,7 @@ def settle(ctx, res, cases, stats):
         first = c.code[c.main]
         if c.prog is None or first.get("tree") is None:
             continue
-        r = model_request(c.prog, first["tree"], first["consts"], aq)
+        r = model_request(c.prog, first["tree"], first["consts"], aq, table=not c.heavy, rows=c.ks)
         if r is None:
             stats["outside_model"] += 1
             continue
@@ -960,7 +1017,10 @@ def settle(ctx, res, cases, stats):
             reqs.append(r2)
         # the Lean reference semantics (QV.Sem.semProg) of the same tree
         sem_idx.append((ci, len(reqs)))
-        reqs.append(dict(op="c01.semw", args=r["args"], ret=r["ret"], body=r["body"]))
+        rs = dict(op="c01.semw", args=r["args"], ret=r["ret"], body=r["body"])
+        if c.ks is not None:
+            rs["rows"] = c.ks
+        reqs.append(rs)
     # the Lean model of ast2ast on the *source* tree (before any pass) against the real pass
     a2a_idx = []
     for ci, c in enumerate(cases):
@@ -979,7 +1039,10 @@ def settle(ctx, res, cases, stats):
             reqs.append(r)
             if typed is not None:
                 # the Lean source-level semantics (QV.A2A.execProg) of the source tree
-                reqs.append(dict(op="c01.semsrc", args=typed[0], ret=typed[1], body=r["body"]))
+                rs = dict(op="c01.semsrc", args=typed[0], ret=typed[1], body=r["body"])
+                if c.ks is not None:
+                    rs["rows"] = c.ks
+                reqs.append(rs)
     replies = ctx.model(reqs) if reqs else []
     model_of = {}
     if replies is not None:
@@ -1013,17 +1076,22 @@ def settle(ctx, res, cases, stats):
             elif first["ok"] and c.rows is None:
                 corr_ok = None
             elif first["ok"]:
-                mrows = table_rows(m["table"], len(m["retbits"]))
+                mrows = table_rows(m["table"], len(m["retbits"])) if m.get("table") is not None else None
                 if m["argbits"] != first["argbits"] or m["retbits"] != first["retbits"]:
                     res.disagree(cj, "bit-name layout differs", code=[first["argbits"], first["retbits"]],
                                  model=[m["argbits"], m["retbits"]])
                     corr_ok = False
+                elif mrows is None:
+                    # a wide product: the model's expressions cannot be walked as trees; acceptance and layout
+                    # are compared here, the values through Lean SemW (check_semw) and `c01.arith` (staged)
+                    stats["wide_model_table_skipped"] = stats.get("wide_model_table_skipped", 0) + 1
+                    corr_ok = None
                 elif m.get("free", []) != c.free:
                     res.disagree(cj, "undefined symbols read differ", code=c.free, model=m.get("free"))
                     corr_ok = False
                 elif mrows != c.rows:
                     bad = next((i for i, (x, y) in enumerate(zip(c.rows, mrows)) if x != y), None)
-                    res.disagree(case_json(c, row=bad), "truth table of the return bits differs",
+                    res.disagree(case_json(c, row=None if bad is None else c.rown(bad)), "truth table of the return bits differs",
                                  code=c.rows[bad] if bad is not None else None,
                                  model=mrows[bad] if bad is not None and bad < len(mrows) else None,
                                  consts=first["consts"])
@@ -1108,7 +1176,7 @@ def check_semsrc(res, c, sem, stats):
         bad = len(got) != len(exp) or [i for i, e_ in enumerate(exp) if e_ is not None and (got[i] == "1") != e_]
         st["semsrc_claimed_bits"] += sum(1 for e_ in exp if e_ is not None)
         if bad:
-            res.disagree(case_json(c, row=k, args=row_values(c.prog, k)),
+            res.disagree(case_json(c, row=c.rown(k), args=row_values(c.prog, c.rown(k))),
                          "Lean source-level semantics (execProg) differs from the python oracle on a claimed bit",
                          model=got, expected="".join("?" if e_ is None else ("1" if e_ else "0") for e_ in exp))
             return
@@ -1237,13 +1305,13 @@ def check_semw(res, c, sem, m, aq, stats):
                 continue
             stats["semw_rows"] += 1
             if len(got) != len(exp):
-                res.disagree(case_json(c, row=k), "Lean SemW: number of return bits differs from the python oracle",
+                res.disagree(case_json(c, row=c.rown(k)), "Lean SemW: number of return bits differs from the python oracle",
                              model=got, expected=len(exp))
                 return
             bad = [i for i, e_ in enumerate(exp) if e_ is not None and (got[i] == "1") != e_]
             stats["semw_claimed_bits"] += sum(1 for e_ in exp if e_ is not None)
             if bad:
-                res.disagree(case_json(c, row=k, args=row_values(c.prog, k)),
+                res.disagree(case_json(c, row=c.rown(k), args=row_values(c.prog, c.rown(k))),
                              "Lean SemW differs from the python oracle (harness/pysem.py) on a claimed bit",
                              model=got, expected="".join("?" if e_ is None else ("1" if e_ else "0") for e_ in exp),
                              wrong_bits=bad)
@@ -1275,13 +1343,13 @@ def check_semw(res, c, sem, m, aq, stats):
                 stats.setdefault("sem_struct_rows", 0)
                 stats["sem_struct_rows"] += 1
                 if lclaim != pclaim:
-                    res.disagree(case_json(c, row=k, args=row_values(c.prog, k)),
+                    res.disagree(case_json(c, row=c.rown(k), args=row_values(c.prog, c.rown(k))),
                                  "Lean SemXT (tuple / Qchar return) claims other bits than the python oracle",
                                  model=lclaim, expected=pclaim)
                     return
                 got = rows[k]
                 if got is not None and any(ch != "?" and ch != g for ch, g in zip(lclaim, got)):
-                    res.disagree(case_json(c, row=k), "Lean SemT differs from Lean SemXT on a claimed bit "
+                    res.disagree(case_json(c, row=c.rown(k)), "Lean SemT differs from Lean SemXT on a claimed bit "
                                  "(the statement of C01_straightline_struct fails on this input)", semt=got, sem=lclaim)
                     return
                 continue
@@ -1295,19 +1363,19 @@ def check_semw(res, c, sem, m, aq, stats):
                 # nothing there), the tree ast2ast leaves is an if-chain that ends in the last element and Lean Sem
                 # is the meaning of that tree: it may claim more.  Wherever the oracle claims, both must agree.
                 if lx != py[0] and py[1] is None or any(p_ != "?" and p_ != l_ for p_, l_ in zip(pclaim, lclaim)):
-                    res.disagree(case_json(c, row=k, args=row_values(c.prog, k)),
+                    res.disagree(case_json(c, row=c.rown(k), args=row_values(c.prog, c.rown(k))),
                                  "Lean Sem differs from the python oracle on a claimed bit (variable subscript)",
                                  model=[lx, lk, lclaim, linr], expected=[py[0], py[1], pclaim, py[1] is None])
                     return
             elif (lx, lk, lclaim, linr) != (py[0], py[1], pclaim, py[1] is None):
-                res.disagree(case_json(c, row=k, args=row_values(c.prog, k)),
+                res.disagree(case_json(c, row=c.rown(k), args=row_values(c.prog, c.rown(k))),
                              "Lean Sem / inRange differs from the python oracle (value, claimed low bits, claim, in-range flag)",
                              model=[lx, lk, lclaim, linr], expected=[py[0], py[1], pclaim, py[1] is None])
                 return
             # the theorem semW_eq_sem / semW_low_bits observed: every claimed bit is SemW's bit
             got = rows[k]
             if got is not None and any(ch != "?" and ch != g for ch, g in zip(lclaim, got)):
-                res.disagree(case_json(c, row=k), "Lean SemW differs from Lean Sem on a claimed bit "
+                res.disagree(case_json(c, row=c.rown(k)), "Lean SemW differs from Lean Sem on a claimed bit "
                              "(the statement of semW_low_bits fails on this input)", semw=got, sem=lclaim)
                 return
     # (b) against the Lean translator (only when no quirk site was reached: the table is then that of Quirks.none)
@@ -1321,7 +1389,7 @@ def check_semw(res, c, sem, m, aq, stats):
                         continue
                     stats["semw_model_rows"] += 1
                     if x != y:
-                        res.disagree(case_json(c, row=k), "Lean SemW differs from the Lean translator model "
+                        res.disagree(case_json(c, row=c.rown(k)), "Lean SemW differs from the Lean translator model "
                                      "(the statement of C01_expr fails on this input)", model=x, semw=y)
                         return
 
@@ -1350,7 +1418,7 @@ def attribute(ctx, res, c, m, m0, corr_ok, byq):
     for qk in ORACLE_QUIRKS:
         if qk in byq and QUIRK_EVENT[qk] in c.events and c.rows is not None and not c.free and not c.missing:
             c2 = Case(c.tag, c.src)
-            c2.prog, c2.rows = c.prog, c.rows
+            c2.prog, c2.rows, c2.ks = c.prog, c.rows, c.ks
             judge(c2, quirks=(qk,))
             if not c2.failing and c2.expected is not None:
                 hit.append(qk)
@@ -1366,7 +1434,7 @@ def attribute(ctx, res, c, m, m0, corr_ok, byq):
             if not (set(cand) & REJECTING):
                 return False
         else:
-            if m0.get("free") or c.expected is None:
+            if m0.get("free") or c.expected is None or m0.get("table") is None:
                 return False
             rows0 = table_rows(m0["table"], len(m0["retbits"]))
             if len(rows0) != len(c.expected) or not satisfies(c.expected, rows0):
@@ -1404,36 +1472,8 @@ def arith_cases():
 
 def arith_real(lib, case):
     """the real QintImp function on symbolic operands -> (bits json list, names)"""
-    from sympy import Symbol
-
-    T = lib.q.types
-
-    def operand(o):
-        if o[0] == "var":
-            cls = getattr(T, f"Qint{o[2]}")
-            names = [f"{o[1]}.{i}" for i in range(o[2])]
-            return (cls, [Symbol(n) for n in names]), names
-        cls = getattr(T, f"Qint{o[1]}")
-        return cls.const(o[2]), []
-
-    (l, ln), (r, rn) = operand(case["l"]), operand(case["r"])
-    fn, k = case["fn"], case.get("k", 0)
-    Q = lib.QintImp
-    if fn in ("eq", "neq", "gt", "lt", "lte", "gte"):
-        out = [getattr(Q, fn)(l, r)[1]]
-    elif fn in ("add", "sub", "mul", "mod"):
-        out = getattr(l[0], fn)(l, r)[1]
-    elif fn in ("xor", "and", "or"):
-        out = getattr(l[0], "bitwise_" + fn)(l, r)[1]
-    elif fn == "shl":
-        out = l[0].shift_left(l, k)[1]
-    elif fn == "shr":
-        out = l[0].shift_right(l, k)[1]
-    elif fn == "not":
-        out = l[0].bitwise_not(l)[1]
-    else:
-        raise ValueError(fn)
-    return [bexp.to_json(e) for e in out], ln + rn
+    out, names = arith_real_sym(lib, case)
+    return [bexp.to_json(e) for e in out], names
 
 
 def arith_expected(case, names, k):
@@ -1441,6 +1481,8 @@ def arith_expected(case, names, k):
     def val(o, off):
         if o[0] == "var":
             return (k >> off) & (2 ** o[2] - 1), o[2], off + o[2]
+        if o[0] == "mvar":      # a variable masked by a literal: the bits outside the mask are `False`
+            return (k >> off) & (2 ** o[2] - 1) & o[3], o[2], off + o[2]
         return o[2] % 2 ** o[1], o[1], off
     a, wa, off = val(case["l"], 0)
     b, wb, off = val(case["r"], off)
@@ -1522,6 +1564,161 @@ def run_arith(ctx, lib, res, stats):
             else:
                 res.violation(dict(arith=c, row=wrong[0]), "library function computes " + wrong[1], code=table)
     stats["arith_cases"] = len(cases)
+    run_arith_wide(ctx, lib, res, stats, aq, byq)
+
+
+def run_arith_wide(ctx, lib, res, stats, aq, byq):
+    """the `QintImp` functions on operands of the largest shipped widths (Qint[12] / Qint[16] variables, literals at
+    the edges of the constant types), on sampled rows: the real function's expressions (evaluated as a graph) against
+    own integer arithmetic and against the Lean model of the function on the same rows - `mul` through
+    `QV.Arith.qMulLit` (the line-by-line `mulRow`, the product list evaluated after every row)"""
+    import random
+
+    cases = c01wide.arith_cases(ctx.thorough)
+    rng = random.Random("C01-wide-arith")
+    cap = 160 if ctx.thorough else 64
+    rows_of = [c01wide.arith_rows(c, rng, cap)[0] for c in cases]
+    reqs = [dict(op="c01.arith", quirks=aq, rows=ks, **c) for c, ks in zip(cases, rows_of)]
+    replies = ctx.model(reqs)
+    n_rows = 0
+    for i, (c, ks) in enumerate(zip(cases, rows_of)):
+        case = dict(arith=c, rows=len(ks))
+        res.count(dict(arith=c, wide=True), nontrivial=True, bucket="arith-wide:" + c["fn"])
+        import signal
+        old = signal.signal(signal.SIGALRM, _alarm)
+        signal.setitimer(signal.ITIMER_REAL, 12 if ctx.thorough else 6, 0.5)
+        try:
+            from sympy import Symbol
+            bits, names = arith_real_sym(lib, c)
+            g = bexp.dag_of_defs([(f"_o.{j}", b) for j, b in enumerate(bits)], names)
+            outs = [f"_o.{j}" for j in range(len(bits))]
+            got_rows = bexp.dag_rows(g, names, outs, ks)
+        except _Timeout:
+            stats["timeouts"] = stats.get("timeouts", 0) + 1
+            continue
+        except Exception as e:  # noqa
+            res.violation(case, f"library function raised {type(e).__name__}: {e}")
+            continue
+        finally:
+            signal.setitimer(signal.ITIMER_REAL, 0)
+            signal.signal(signal.SIGALRM, old)
+        nb = len(bits)
+        n_rows += len(ks)
+        table = "".join(got_rows)
+        wrong = None
+        for k, row in zip(ks, got_rows):
+            v, w = arith_expected(c, names, k)
+            if w is not None and nb != w:
+                wrong = (k, f"width {nb} instead of {w}")
+                break
+            got = int(row[::-1], 2) if row else 0
+            if got != v:
+                wrong = (k, f"value {got} instead of {v}")
+                break
+        m = replies[i] if replies is not None else None
+        same = m is not None and "driver_error" not in m and m["table"] == table and m["n"] == nb
+        if m is not None and not same:
+            bad = None
+            if "driver_error" not in m and m["n"] == nb:
+                bad = next((ks[j] for j in range(len(ks)) if m["table"][j * nb:(j + 1) * nb] != got_rows[j]), None)
+            res.disagree(dict(arith=c, row=bad, operands=arith_operands(c, bad)),
+                         "library function differs from the model on a sampled row (wide operands)",
+                         code=None if bad is None else got_rows[ks.index(bad)],
+                         model=m if bad is None else m["table"][ks.index(bad) * nb:(ks.index(bad) + 1) * nb])
+        if wrong is not None:
+            res.violation(dict(arith=c, row=wrong[0], operands=arith_operands(c, wrong[0]), rows=ks),
+                          "library function computes " + wrong[1] + " (wide operands)",
+                          code=got_rows[ks.index(wrong[0])])
+    stats["arith_wide_cases"] = len(cases)
+    stats["arith_wide_rows"] = n_rows
+
+
+def arith_operands(case, k):
+    """the operand values of row k of a library-function case"""
+    if k is None:
+        return None
+    out, off = {}, 0
+    for o in (case["l"], case["r"]):
+        if o[0] in ("var", "mvar"):
+            out[o[1]] = (k >> off) & (2 ** o[2] - 1)
+            off += o[2]
+            if o[0] == "mvar":
+                out[o[1] + "_mask"] = o[3]
+        else:
+            out["const"] = o[2]
+    return out
+
+
+def arith_real_sym(lib, case):
+    """the real QintImp function on symbolic operands -> (sympy bits, names)"""
+    from sympy import Symbol
+
+    T = lib.q.types
+
+    def operand(o):
+        if o[0] in ("var", "mvar"):
+            cls = getattr(T, f"Qint{o[2]}")
+            names = [f"{o[1]}.{i}" for i in range(o[2])]
+            mask = o[3] if o[0] == "mvar" else -1
+            return (cls, [Symbol(n) if (mask >> i) & 1 else False for i, n in enumerate(names)]), names
+        cls = getattr(T, f"Qint{o[1]}")
+        return cls.const(o[2]), []
+
+    (l, ln), (r, rn) = operand(case["l"]), operand(case["r"])
+    fn, k = case["fn"], case.get("k", 0)
+    Q = lib.QintImp
+    if fn in ("eq", "neq", "gt", "lt", "lte", "gte"):
+        out = [getattr(Q, fn)(l, r)[1]]
+    elif fn in ("add", "sub", "mul", "mod"):
+        out = getattr(l[0], fn)(l, r)[1]
+    elif fn in ("xor", "and", "or"):
+        out = getattr(l[0], "bitwise_" + fn)(l, r)[1]
+    elif fn == "shl":
+        out = l[0].shift_left(l, k)[1]
+    elif fn == "shr":
+        out = l[0].shift_right(l, k)[1]
+    elif fn == "not":
+        out = l[0].bitwise_not(l)[1]
+    else:
+        raise ValueError(fn)
+    return list(out), ln + rn
+
+
+# ----------------------------------------------------------------------------- wide programs
+def observe_wide(lib, w, rng, thorough, wstats):
+    """one program of harness/c01wide.py: rows sampled for its declared types, compiled with `dag=True`"""
+    src = w["src"]
+    try:
+        prog = pysem.Program(src)
+        cap = (320 if thorough else 110) if not w["heavy"] else (200 if thorough else 90)
+        ks, kinds = c01wide.sample_rows(prog.args, prog.ret, rng, cap)
+        nbits = len(prog.argbits)
+        widths = [pysem.ty_bits(t) for _, t in prog.args]
+    except (pysem.Reject, pysem.Malformed, SyntaxError):
+        ks, kinds, nbits, widths = [0], {}, 0, []
+    profiles = w.get("profiles") or ("none",)
+    c = observe(lib, w["tag"], src, profiles=profiles, budget=14 if thorough else 6, ks=ks, heavy=w["heavy"])
+    c.row_kinds = kinds
+    wstats["programs"] += 1
+    wstats["heavy_products"] += bool(w["heavy"])
+    wstats["rows"] += len(ks)
+    for k_, v in kinds.items():
+        wstats["row_kinds"][k_] = wstats["row_kinds"].get(k_, 0) + v
+    wstats["arg_bits"][str(nbits)] = wstats["arg_bits"].get(str(nbits), 0) + 1
+    for x in widths:
+        wstats["widths"][str(x)] = wstats["widths"].get(str(x), 0) + 1
+    pk = "+".join(profiles)
+    wstats["profiles"][pk] = wstats["profiles"].get(pk, 0) + 1
+    if not c.timeout and c.code[c.main]["ok"]:
+        wstats["accepted"] += 1
+        if c.expected is not None:
+            wstats["judged_rows"] += len(c.expected)
+            wstats["claimed_bits"] += sum(1 for e in c.expected for b in e if b is not None)
+            # rows whose (claimed) result has the top bit of the return type set / whose exact value left its range
+            wstats["rows_top_bit_set"] = wstats.get("rows_top_bit_set", 0) + sum(1 for e in c.expected if e and e[-1] is True)
+            wstats["rows_wrapped"] = wstats.get("rows_wrapped", 0) + sum(
+                1 for x in (c.exact or []) if x is not None and x[1] is not None)
+    return c
 
 
 # ----------------------------------------------------------------------------- run
@@ -1532,7 +1729,10 @@ def nontrivial(c):
 def run(ctx: Ctx) -> Result:
     res = Result("C01")
     res.rule = ("a case = one program through the real front end under both optimizer profiles, judged on every "
-                "argument assignment; non-trivial = accepted by the library and given a meaning by the oracle")
+                "argument assignment (programs of the wide stream - Qint[12] / Qint[16] values, up to 48 argument bits - "
+                "on sampled boundary / directed / pseudo-random rows, under the identity profile and, for a part, "
+                "defaultOptimizer / fastOptimizer); non-trivial = accepted by the library and given a meaning by the "
+                "oracle; arith / arith-wide = one QintImp function on symbolic operands")
     rng = ctx.rng
     stats = dict(outside_model=0, model_compared=0, rejected=0, oracle_undefined=0, malformed_rejected=0,
                  malformed_accepted_but_right=0, cpython_rows=0)
@@ -1550,12 +1750,30 @@ def run(ctx: Ctx) -> Result:
     # drawn last: the streams above see the same random numbers as before this one existed
     for k in range(150 if ctx.thorough else 24):
         stream.append(("rand:ifself", gen_ifself_program(rng, k)))
+    # the largest shipped widths, on sampled rows (harness/c01wide.py): the systematic slice has its own fixed
+    # pseudo-random stream (same programs and rows for every seed); the randomised variants are drawn last
+    wide = list(c01wide.programs(ctx.thorough))
+    for k in range(120 if ctx.thorough else 14):
+        wide.append(c01wide.gen_program(rng, k))
+    import random as _random
+    wrng = _random.Random("C01-wide-rows")
+    wstats = stats.setdefault("wide", dict(programs=0, heavy_products=0, rows=0, row_kinds={}, arg_bits={},
+                                           widths={}, profiles={}, accepted=0, judged_rows=0, claimed_bits=0))
     with Lib() as lib:
         run_arith(ctx, lib, res, stats)
         batch = []
         for tag, src in stream:
             c = observe(lib, tag, src, budget=6 if ctx.thorough else 5)
             res.count(dict(src=src), nontrivial=nontrivial(c), bucket=tag.split(":")[0] + ":" + tag.split(":")[1][:12])
+            stats["cpython_rows"] += c.cpython_rows
+            batch.append(c)
+            if len(batch) >= 400:
+                settle(ctx, res, batch, stats)
+                batch = []
+        for w in wide:
+            c = observe_wide(lib, w, rng if w["tag"].startswith("rand:") else wrng, ctx.thorough, wstats)
+            tg = w["tag"].split(":")
+            res.count(dict(src=w["src"]), nontrivial=nontrivial(c), bucket=tg[0] + ":" + tg[1][:12])
             stats["cpython_rows"] += c.cpython_rows
             batch.append(c)
             if len(batch) >= 400:
@@ -1575,6 +1793,14 @@ def run(ctx: Ctx) -> Result:
     res.assumptions.append(
         "the outcomes of Qtype.is_const at the operands of QintImp.mul (they depend on sympy's automatic evaluation) are "
         "logged from the real run and are an input of the model")
+    res.notes.append(
+        "wide stream (extra.c01.wide): products are limited to the shapes the real library can translate at all - sympy's "
+        "constructors make Qint[8] * Qint[8] of two variables take 80 s and Qint[12] * Qint[12] not end within the hour; "
+        "the products here have a left operand with at most three bits that are not False after padding (small literal, "
+        "Qint[2] / Qint[3] variable, `a & mask`) or a right operand that is a literal with one or two set bits; the Lean "
+        "translator's table is not computed for them (its expressions are trees of ~10^10 nodes): they are compared "
+        "with Lean SemW on the sampled rows (C01_body: equal to the model's table on straight-line programs) and, "
+        "function by function, with QV.Arith.qMulLit (arith-wide)")
     res.notes.append("Qfixed programs, typecasts, float constants, nested function definitions and hybrid Q.* gates are "
                      "outside the Lean model (oracle only, or not generated)")
     return res
@@ -1599,6 +1825,20 @@ def replay(ctx: Ctx, payload):
     if not case and payload.get("correspondence_disagreements"):
         case = payload["correspondence_disagreements"][0].get("case", {})
     print("replaying", json.dumps(case)[:1500])
+    if "arith" in case and case.get("rows") is not None:
+        with Lib() as lib:
+            bits, names = arith_real_sym(lib, case["arith"])
+        g = bexp.dag_of_defs([(f"_o.{j}", b) for j, b in enumerate(bits)], names)
+        rows = bexp.dag_rows(g, names, [f"_o.{j}" for j in range(len(bits))], case["rows"])
+        bad = 0
+        for k, row in zip(case["rows"], rows):
+            v, w = arith_expected(case["arith"], names, k)
+            if int(row[::-1], 2) != v or (w is not None and w != len(bits)):
+                if bad < 8:
+                    print(f"row {k} {arith_operands(case['arith'], k)}: code {int(row[::-1], 2)} ({row}) expected value {v}")
+                bad += 1
+        print("property:", "holds" if not bad else f"VIOLATED on {bad} of {len(rows)} sampled rows")
+        return 1 if bad else 0
     if "arith" in case:
         with Lib() as lib:
             bits, names = arith_real(lib, case["arith"])
@@ -1617,7 +1857,11 @@ def replay(ctx: Ctx, payload):
         print("nothing to replay on the code for this payload")
         return 2
     with Lib() as lib:
-        c = observe(lib, case.get("tag", "replay"), case["src"])
+        if case.get("ks") is not None:
+            c = observe(lib, case.get("tag", "replay"), case["src"], profiles=tuple(case.get("profiles") or ("none",)),
+                        budget=60, ks=case["ks"], heavy=bool(case.get("heavy")))
+        else:
+            c = observe(lib, case.get("tag", "replay"), case["src"])
     f = c.code[c.main]
     print("code:", "accepted" if f["ok"] else "rejected: " + f["error"], c.accept_disagree or "")
     if c.free or c.missing:
